@@ -31,6 +31,10 @@ where
     /// and a given window length
     #[inline]
     pub fn new(view: V, window_len: usize) -> Self {
+        assert!(
+            window_len > 2,
+            "window_len must be greater than 2, the cycle needs three smoothed values"
+        );
         CyberCycle {
             view,
             window_len,
